@@ -28,7 +28,8 @@ import IceModel.Props.ChunkBytes
     C04_empty_v0_counterexample   the pre-49af17c merger file makes `load` panic (by `decide`)
     ex_*          a two-field, three-document segment serialized and loaded back (kernel-checked)
 
-  -- UNPROVED: (nothing is `sorry`; these statements are not part of this file)
+  -- PROVED ELSEWHERE (Props/C04Total.lean): the three items below - `C04_total`,
+  -- `C04_backing_irrelevant`, `C04_new_eq_load`.  They were not part of this file:
   --  * totality of the writer: "`serialize K L` succeeds for every structurally valid `L` whose
   --    output stays below 2^62 bytes".  All theorems take the successful run as a hypothesis
   --    (`hs`), which is the shape of C04 ("every segment ice *writes*"); `serialize_zero` proves
